@@ -54,7 +54,8 @@ fn small_a_cfgs<S: Sch>(w: Width) -> Vec<KeyCfg> {
         };
     }
     match w {
-        Width::Narrow => vec![KeyCfg::uni(4, 3, 2, Some(vec![2, 3]))],
+        // bounds with gaps (3 and 4 are never enforced) and a bound above the supported degree for Marlin
+        Width::Narrow => vec![KeyCfg::uni(6, 5, 2, Some(if S::NAME.starts_with("MAR") { vec![2, 5, 6] } else { vec![2, 5] }))],
         Width::Medium => {
             let mut v = Vec::new();
             for d in 1..=3usize {
